@@ -1,11 +1,13 @@
 package main
 
 import (
+	"bytes"
 	"fmt"
 	"math/rand"
 	"strings"
 
 	"verif/internal/fakeredis"
+	"verif/internal/gen"
 )
 
 // combo is one point of the enumerated product.
@@ -103,6 +105,8 @@ type plan struct {
 	Cache cacheSpec
 
 	Constructed []string
+	Behind      bool // failover: the new master has produced less than the stored position when the tool reconnects
+	Aligned     bool // failover: a command boundary of the new history falls on the stored position's number
 	FreshDisk   bool // disk backend: second session opens the directory with a fresh channel object
 }
 
@@ -119,6 +123,80 @@ func growPiece(r *rand.Rand, h *history, tag string, until int64, min int) {
 			panic("growPiece runaway")
 		}
 	}
+}
+
+// padTo appends a write to h so that a command boundary falls exactly on `target`.
+func padTo(h *history, tag string, target int64) bool {
+	need := target - h.End()
+	id := fmt.Sprintf("~%s.0~", tag)
+	key := []byte("pad" + tag)
+	for n := need - 80; n <= need; n++ {
+		if n < int64(len(id)) {
+			continue
+		}
+		val := append([]byte(id), bytes.Repeat([]byte{'x'}, int(n)-len(id))...)
+		b := gen.Encode("set", [][]byte{key, val})
+		if int64(len(b)) == need {
+			db := 0
+			if len(h.Cmds) > 0 {
+				db = h.Cmds[len(h.Cmds)-1].DB
+			}
+			st := &gen.Stream{Hist: tag, Bytes: b}
+			st.Cmds = []gen.Cmd{{Kind: gen.KWrite, Name: "set", Args: [][]byte{key, val}, DB: db, ID: id, Start: 0, End: int64(len(b)), Group: -1}}
+			h.appendPiece(st)
+			return true
+		}
+	}
+	return false
+}
+
+// around picks a log range [l,r] among the boundaries bs that stands in relation prel to pivot.
+func around(r *rand.Rand, bs []int64, pivot int64, prel string) (int64, int64, bool) {
+	var ls, rs []int64
+	switch prel {
+	case "at-right":
+		rs = filterI64(bs, func(x int64) bool { return x == pivot })
+		ls = filterI64(bs, func(x int64) bool { return x < pivot })
+	case "inside":
+		ls = filterI64(bs, func(x int64) bool { return x <= pivot })
+		rs = filterI64(bs, func(x int64) bool { return x > pivot })
+	case "before-left":
+		ls = filterI64(bs, func(x int64) bool { return x > pivot })
+		if len(ls) > 1 {
+			ls = ls[:len(ls)-1]
+		}
+	case "beyond-right":
+		rs = filterI64(bs, func(x int64) bool { return x < pivot })
+		if len(rs) > 1 {
+			rs = rs[1:]
+		}
+	default: // na: anything
+		ls = bs[:len(bs)-1]
+	}
+	if prel == "beyond-right" {
+		if len(rs) == 0 {
+			return 0, 0, false
+		}
+		rr := pickI64(r, rs)
+		ls = filterI64(bs, func(x int64) bool { return x < rr })
+		if len(ls) == 0 {
+			return 0, 0, false
+		}
+		return pickI64(r, ls), rr, true
+	}
+	if len(ls) == 0 {
+		return 0, 0, false
+	}
+	l := pickI64(r, ls)
+	if rs == nil {
+		rs = filterI64(bs, func(x int64) bool { return x > l })
+	} else {
+		rs = filterI64(rs, func(x int64) bool { return x > l })
+	}
+	if len(rs) == 0 {
+		return 0, 0, false
+	}
+	return l, pickI64(r, rs), true
 }
 
 // buildPlan derives a concrete scenario from a combination (sizes and offsets by the PRNG).
@@ -138,25 +216,59 @@ func buildPlan(r *rand.Rand, c combo) (*plan, error) {
 	// what the old master produced while the tool was away
 	growPiece(r, p.H1, "g", 0, 2)
 	P1 := p.L1End
+	natural := c.Cache == "natural"
+
+	// ---- the stored position first (when it lives on the first history)
+	havePos := false
+	if c.Pid == "id1" || c.Pid == "unknown" {
+		bs := p.H1.boundaries(p.B1, p.H1.End())
+		var cand []int64
+		switch {
+		case c.Prel == "na" && c.Pid == "id1":
+			cand = []int64{P1}
+		case natural && c.Prel == "at-right":
+			cand = []int64{P1}
+		case natural && c.Prel == "inside":
+			cand = filterI64(bs, func(x int64) bool { return x >= p.B1 && x < P1 })
+		case natural && c.Prel == "before-left":
+			cand = []int64{p.B1 - int64(1+r.Intn(100))}
+		case natural && c.Prel == "beyond-right":
+			cand = filterI64(bs, func(x int64) bool { return x > P1 })
+		default:
+			if len(bs) < 6 {
+				return nil, infeasible{"history too short"}
+			}
+			cand = bs[2 : len(bs)-2]
+		}
+		if len(cand) == 0 {
+			return nil, infeasible{"no position satisfies " + c.Prel}
+		}
+		p.CP.Off = pickI64(r, cand)
+		p.CP.ID = p.ID1
+		if c.Pid == "unknown" {
+			p.CP.ID = randID(r)
+		}
+		p.CP.DB = p.H1.dbAt(p.CP.Off)
+		havePos = true
+	}
+	ref := P1 // what "early"/"late" refer to
+	if havePos && c.Pid == "id1" && p.CP.Off >= p.B1 {
+		ref = p.CP.Off
+	}
 
 	// ---- source of the second session
 	switch c.Src {
 	case "same", "trim-past", "trim-before":
 		p.H2 = p.H1
-		p.SrcID2 = ""
 		if r.Intn(2) == 0 {
 			p.SrcID2 = randID(r) // an unrelated older id
-			p.S = -1
 		}
 	case "failover-early", "failover-late":
 		var cand []int64
 		if c.Src == "failover-early" {
-			cand = p.H1.boundaries(p.B1, P1-1)
+			cand = p.H1.boundaries(p.B1, ref-1)
 		} else {
-			cand = p.H1.boundaries(P1, p.H1.End())
-			if c.Prel == "beyond-right" {
-				cand = filterI64(cand, func(x int64) bool { return x > P1 })
-			}
+			cand = p.H1.boundaries(ref, p.H1.End())
 		}
 		if len(cand) == 0 {
 			return nil, infeasible{"no switch offset"}
@@ -164,14 +276,28 @@ func buildPlan(r *rand.Rand, c combo) (*plan, error) {
 		p.S = pickI64(r, cand)
 		p.H2 = p.H1.prefix(randID(r), p.S)
 		p.SrcID2 = p.ID1
-		// the promoted replica's own writes: usually long enough to cover every offset of H1
-		until := p.S
-		if r.Intn(10) < 8 {
-			until = p.H1.End() + int64(r.Intn(300))
+		// the promoted replica's own writes.  Usually they cover every offset of H1, and when the
+		// stored position lies beyond the switch a command boundary of the new history is made
+		// to fall on the same number (the continuation then parses cleanly: the silent case).
+		cacheCovers := c.Cache == "natural" || c.Cache == "log-only" // a cache under the first id decides by itself
+		if havePos && c.Pid == "id1" && p.CP.Off > p.S && !cacheCovers && r.Intn(10) < 7 {
+			for p.CP.Off-p.H2.End() > 400 {
+				p.H2.appendPiece(genPiece(r, fmt.Sprintf("d%d", len(p.H2.Cmds)), 1+r.Intn(3)))
+			}
+			if p.CP.Off-p.H2.End() >= 60 && padTo(p.H2, "dp", p.CP.Off) {
+				p.Aligned = true
+			}
 		}
-		growPiece(r, p.H2, "d", until, r.Intn(2))
+		// ... or the promoted replica is still behind the stored position (a third of the cases)
+		until := p.S
+		if p.Aligned || (cacheCovers && r.Intn(2) == 0) || (!cacheCovers && r.Intn(3) > 0) {
+			until = p.H1.End() + int64(r.Intn(300))
+		} else {
+			p.Behind = true
+		}
+		growPiece(r, p.H2, "dd", until, r.Intn(2))
 	case "newid":
-		b3 := P1 - int64(1+r.Intn(400))
+		b3 := ref - int64(1+r.Intn(400))
 		if r.Intn(4) == 0 {
 			b3 = p.B1 + int64(r.Intn(2000)) - 1000
 		}
@@ -187,7 +313,51 @@ func buildPlan(r *rand.Rand, c combo) (*plan, error) {
 	p.LiveFrom = p.H2.End()
 	cur := p.H2.ReplID
 
-	// ---- cache
+	// ---- a position under the current id lives on the current history
+	if c.Pid == "cur" {
+		bs := p.H2.boundaries(p.H2.Base, p.LiveFrom)
+		var cand []int64
+		switch {
+		case natural && c.Prel == "at-right":
+			cand = filterI64(bs, func(x int64) bool { return x == P1 })
+		case natural && c.Prel == "inside":
+			cand = filterI64(bs, func(x int64) bool { return x >= p.B1 && x < P1 })
+		case natural && c.Prel == "before-left":
+			cand = filterI64(bs, func(x int64) bool { return x < p.B1 })
+			if len(cand) == 0 && p.B1 > 200 {
+				cand = []int64{p.B1 - int64(1+r.Intn(100))}
+			}
+		case natural && c.Prel == "beyond-right":
+			cand = filterI64(bs, func(x int64) bool { return x > P1 })
+		default:
+			if len(bs) < 6 {
+				return nil, infeasible{"history too short"}
+			}
+			cand = bs[2 : len(bs)-2]
+		}
+		if len(cand) == 0 {
+			return nil, infeasible{"no position on the current history satisfies " + c.Prel}
+		}
+		p.CP.Off = pickI64(r, cand)
+		p.CP.ID = cur
+		p.CP.DB = p.H2.dbAt(p.CP.Off)
+		havePos = true
+	}
+	switch {
+	case c.Pid == "absent":
+		p.CP = cpSpec{Absent: true}
+		p.Constructed = append(p.Constructed, "checkpoint-removed")
+	case c.Pid == "id1" && p.CP.Off == P1:
+		p.CP.Natural = true
+	default:
+		p.Constructed = append(p.Constructed, "checkpoint-written")
+	}
+	pivot := P1
+	if havePos {
+		pivot = p.CP.Off
+	}
+
+	// ---- cache, built around the position
 	switch c.Cache {
 	case "empty":
 		p.Cache = cacheSpec{Kind: "empty"}
@@ -195,98 +365,31 @@ func buildPlan(r *rand.Rand, c combo) (*plan, error) {
 	case "natural":
 		p.Cache = cacheSpec{Kind: "natural", ID: p.ID1, Hist: p.H1, Snap: p.S1, Ro: p.B1, L: p.B1, R: P1, Natural: true}
 	case "log-only", "cur-id":
-		h, id := p.H1, p.ID1
+		h, id, hi := p.H1, p.ID1, p.H1.End()
 		if c.Cache == "cur-id" {
-			h, id = p.H2, cur
+			h, id, hi = p.H2, cur, p.LiveFrom
 		}
-		bs := h.boundaries(h.Base+1, p.LiveFrom)
-		if c.Cache == "log-only" {
-			bs = h.boundaries(h.Base+1, h.End()-1)
+		l, rr, ok := around(r, h.boundaries(h.Base, hi), pivot, c.Prel)
+		if !ok {
+			return nil, infeasible{"no cached range stands " + c.Prel + " to the position"}
 		}
-		if len(bs) < 4 {
-			return nil, infeasible{"history too short for a log-only cache"}
-		}
-		i := 1 + r.Intn(len(bs)-3)
-		j := i + 1 + r.Intn(len(bs)-2-i)
-		p.Cache = cacheSpec{Kind: c.Cache, ID: id, Hist: h, L: bs[i], R: bs[j]}
+		p.Cache = cacheSpec{Kind: c.Cache, ID: id, Hist: h, L: l, R: rr}
 		p.Constructed = append(p.Constructed, "cache-built-through-writer-api")
 	case "other-id":
-		hx := newHistory(randID(r), P1-int64(50+r.Intn(300)))
-		growPiece(r, hx, "x", P1+int64(r.Intn(200)), 2)
-		bs := hx.boundaries(hx.Base, hx.End())
-		i := r.Intn(len(bs) - 1)
-		j := i + 1 + r.Intn(len(bs)-1-i)
-		p.Cache = cacheSpec{Kind: "other-id", ID: hx.ReplID, Hist: hx, L: bs[i], R: bs[j]}
+		hx := newHistory(randID(r), pivot-int64(50+r.Intn(300)))
+		if hx.Base < 1 {
+			hx.Base = 1
+		}
+		growPiece(r, hx, "x", pivot+int64(100+r.Intn(200)), 2)
+		l, rr, ok := around(r, hx.boundaries(hx.Base, hx.End()), pivot, c.Prel)
+		if !ok {
+			return nil, infeasible{"no foreign range stands " + c.Prel + " to the position"}
+		}
+		p.Cache = cacheSpec{Kind: "other-id", ID: hx.ReplID, Hist: hx, L: l, R: rr}
 		if r.Intn(2) == 0 {
-			p.Cache.Snap, p.Cache.Ro = genSnapshot(r, "sx"), bs[i]
+			p.Cache.Snap, p.Cache.Ro = genSnapshot(r, "sx"), l
 		}
 		p.Constructed = append(p.Constructed, "cache-built-through-writer-api")
-	}
-
-	// ---- resume position stored on the target
-	switch c.Pid {
-	case "absent":
-		p.CP = cpSpec{Absent: true}
-		p.Constructed = append(p.Constructed, "checkpoint-removed")
-	default:
-		var hp *history
-		switch c.Pid {
-		case "id1":
-			p.CP.ID, hp = p.ID1, p.H1
-		case "cur":
-			p.CP.ID, hp = cur, p.H2
-		case "unknown":
-			p.CP.ID, hp = randID(r), p.H1
-		}
-		hi := hp.End()
-		if hp == p.H2 {
-			hi = p.LiveFrom
-		}
-		bs := hp.boundaries(hp.Base, hi)
-		l, rr := p.Cache.L, p.Cache.R
-		var cand []int64
-		switch c.Prel {
-		case "na":
-			cand = bs
-			if c.Pid == "id1" {
-				cand = []int64{P1}
-			}
-		case "at-right":
-			cand = filterI64(bs, func(x int64) bool { return x == rr })
-		case "inside":
-			cand = filterI64(bs, func(x int64) bool { return x >= l && x < rr })
-		case "before-left":
-			cand = filterI64(bs, func(x int64) bool { return x < l })
-			if len(cand) == 0 {
-				cand = []int64{l - int64(1+r.Intn(100))}
-			}
-		case "beyond-right":
-			cand = filterI64(bs, func(x int64) bool { return x > rr })
-		}
-		// failover: keep the class the combination names when the position is under the first id
-		if c.Pid == "id1" && c.Src == "failover-early" {
-			if c2 := filterI64(cand, func(x int64) bool { return x > p.S }); len(c2) > 0 {
-				cand = c2
-			}
-		}
-		if c.Pid == "id1" && c.Src == "failover-late" {
-			if c2 := filterI64(cand, func(x int64) bool { return x <= p.S }); len(c2) > 0 {
-				cand = c2
-			}
-		}
-		if len(cand) == 0 {
-			return nil, infeasible{"no position satisfies " + c.Prel}
-		}
-		p.CP.Off = pickI64(r, cand)
-		if p.CP.Off < 0 {
-			return nil, infeasible{"negative position"}
-		}
-		p.CP.DB = hp.dbAt(p.CP.Off)
-		if c.Pid == "id1" && p.CP.Off == P1 {
-			p.CP.Natural = true
-		} else {
-			p.Constructed = append(p.Constructed, "checkpoint-written")
-		}
 	}
 
 	// ---- backlog of the second source
@@ -382,34 +485,43 @@ func (p *plan) onCurrent(id string, off int64) bool {
 	return p.S >= 0 && id == p.SrcID2 && off <= p.S
 }
 
-func (p *plan) cacheClass(pos int64, absent bool) string {
-	c := p.Cache
-	if c.Kind == "empty" {
+func (p *plan) cacheClass(pre preState) string {
+	if pre.CacheID == "" {
 		return "empty"
 	}
 	k := "log-only"
-	if c.Snap != nil {
+	if pre.CacheSnap != nil {
 		k = "snapshot+log"
 	}
 	idc := "other-id"
 	switch {
-	case c.ID == p.H2.ReplID:
+	case pre.CacheID == p.H2.ReplID:
 		idc = "current-id"
-	case c.ID == p.SrcID2 && p.S >= 0:
+	case pre.CacheID == p.SrcID2 && p.S >= 0:
 		idc = "previous-id"
-		if c.R > p.S {
+		if pre.CacheR > p.S {
 			idc = "previous-id-beyond-s"
 		}
 	}
 	rel := ""
-	if !absent {
+	if !pre.PosAbsent {
 		switch {
-		case c.R < pos:
+		case pre.CacheR < pre.Pos:
 			rel = "|shorter-than-P"
-		case c.R > pos:
+		case pre.CacheR > pre.Pos:
 			rel = "|longer-than-P"
 		default:
 			rel = "|ends-at-P"
+		}
+		switch {
+		case pre.Pos < pre.CacheL && pre.CacheSnap != nil:
+			rel += "|P-before-left-with-snapshot"
+		case pre.Pos < pre.CacheL:
+			rel += "|P-before-left-no-snapshot"
+		case pre.Pos <= pre.CacheR:
+			rel += "|P-inside"
+		default:
+			rel += "|P-beyond-right"
 		}
 	}
 	return k + "|" + idc + rel
